@@ -305,10 +305,6 @@ func randomLog(c *hx.Ctx, r *hx.Rng, logLen int) {
 		default:
 			cmd = u.Gen(kindsModelled)
 		}
-		if in.PickMatters(cmd) {
-			c.Count("stop:map-order-pick")
-			break
-		}
 		if !t.step(in, cmd) {
 			break
 		}
